@@ -3716,7 +3716,15 @@ first_iteration:
 		owned += dq->dq_width * DISPATCH_QUEUE_WIDTH_INTERVAL;
 	}
 	if (dc) {
-		owned = _dispatch_queue_adjust_owned(dq, owned, dc);
+		// When this drain is run again after it gave up for lack of width
+		// (out_with_no_width, then a DIRTY queue at unlock time), the pending
+		// barrier reservation is already in dq_state: if the loop then stops
+		// before doing anything (suspension, retarget), it owns nothing and must
+		// not leave a second reservation behind.
+		if (likely(owned) || !_dq_state_has_pending_barrier(
+				os_atomic_load2o(dq, dq_state, relaxed))) {
+			owned = _dispatch_queue_adjust_owned(dq, owned, dc);
+		}
 	}
 	*owned_ptr &= DISPATCH_QUEUE_ENQUEUED | DISPATCH_QUEUE_ENQUEUED_ON_MGR;
 	*owned_ptr |= owned;
